@@ -199,6 +199,18 @@ func Materialise(it Item) *Live {
 		l.V = uint8(it.N)
 	case "f64":
 		l.V = it.float()
+	case "f32":
+		l.V = float32(it.float())
+	case "i64":
+		l.V = it.N
+	case "u64":
+		l.V = uint64(it.N) // negative N wraps to the top of the range
+	case "i8":
+		l.V = int8(it.N)
+	case "u16":
+		l.V = uint16(it.N)
+	case "c64":
+		l.V = complex(float32(it.float()), float32(it.N))
 	case "bool":
 		l.V = it.N != 0
 	case "ints":
@@ -373,10 +385,11 @@ func SameItem(orig, got interface{}) bool {
 		return vo.Pointer() == vg.Pointer()
 	case reflect.Slice:
 		return vo.Pointer() == vg.Pointer() && vo.Len() == vg.Len()
-	case reflect.Float64:
-		if math.IsNaN(vo.Float()) {
-			return math.IsNaN(vg.Float())
-		}
+	case reflect.Float64, reflect.Float32:
+		return math.Float64bits(vo.Float()) == math.Float64bits(vg.Float()) // NaN is itself
+	case reflect.Complex64, reflect.Complex128:
+		co, cg := vo.Complex(), vg.Complex()
+		return math.Float64bits(real(co)) == math.Float64bits(real(cg)) && math.Float64bits(imag(co)) == math.Float64bits(imag(cg))
 	}
 	if co, ok := orig.(tabular.Cell); ok {
 		cg := got.(tabular.Cell)
